@@ -95,6 +95,40 @@ inductive PReach (shuffle : List Card → List Card) (g0 : GState) : PState → 
   | step {ps : PState} {g' : GState} (m : Move) : PReach shuffle g0 ps → ps.g.complete = false →
       ps.g.apply shuffle m = .ok g' → PReach shuffle g0 (pubStep ps m g')
 
+/-! ### games started from an explicit public card map (C17, `public_hud=` of the constructor) -/
+
+/-- a game handed to the constructor together with a public card map (a restored game; `{}` for "nothing seen so
+far"): the map is truthful and a dict (every card at most once).  The turn may be ANY observable turn (all but the
+transient forced stock draws, which never last beyond the pass that causes them) as long as the hand sizes, the
+variant and the stock fit it: a fresh deal (`Deal`) is the special case "first-draw turn, one up-card, the map is
+`{up-card: TOP}`"; the pile may be anything, also empty (the state after a gin ricky reshuffle).  The fields the
+model's constructor does not take (`last_draw`, counters, points) are those of a new game. -/
+structure DealH (g0 : GState) : Prop where
+  fresh : ∃ params deck discard p1 p2 turn h, newGameWith params deck discard p1 p2 turn (some h) = .ok g0
+  variant : g0.params = Params.rummy g0.params.maxTurns ∨ g0.params = Params.ricky g0.params.maxTurns
+  observable : g0.turn.isDrawFromDeck = false
+  knock_rummy : g0.turn.isKnock = true → g0.params.variant = .rummy
+  p1_len : g0.p1.length = g0.params.cardsDealt + (if g0.turn = .p1Discards then 1 else 0)
+  p2_len : g0.p2.length = g0.params.cardsDealt + (if g0.turn = .p2Discards then 1 else 0)
+  nodup : g0.allCards.Nodup
+  /-- a player who has to draw finds a stock card beyond the end size -/
+  stock : g0.turn.isDiscard = false → g0.turn.isKnock = false → g0.params.endCardsInDeck < g0.deck.length
+  stock_le : g0.params.endCardsInDeck ≤ g0.deck.length
+  hud_keys : (g0.hud.map (·.1)).Nodup
+  hud_sound : HudSound g0
+
+/-- the cards a map places in the hand `l` (`.p1` / `.p2`) -/
+def hudHand (hud : List (Card × Hud)) (l : Hud) : List Card := (hud.filter (·.2 == l)).map (·.1)
+
+/-- what is public at the start of a game handed over with a map: what the map says -/
+def PState.initH (g0 : GState) : PState := ⟨g0, hudHand g0.hud .p1, hudHand g0.hud .p2⟩
+
+/-- `PReach` for a game that starts with the public knowledge its map records -/
+inductive PReachH (shuffle : List Card → List Card) (g0 : GState) : PState → Prop
+  | init : PReachH shuffle g0 (PState.initH g0)
+  | step {ps : PState} {g' : GState} (m : Move) : PReachH shuffle g0 ps → ps.g.complete = false →
+      ps.g.apply shuffle m = .ok g' → PReachH shuffle g0 (pubStep ps m g')
+
 /-- points after normalisation: the winner shows zero -/
 def normPoints (a b : Int) : Int × Int := if a > b then (a - b, 0) else if b > a then (0, b - a) else (a, b)
 
